@@ -242,7 +242,20 @@ func checkC13(c *Ctx) {
 	}
 	moreVar := c.SZygo.Var("ErrMoreInputNeeded")
 	if peek != nil && yieldF != nil && errF != nil && typF != nil && tokenEnd >= 0 && moreVar != nil {
-		for _, name := range []string{"Parser.ParseList", "Parser.ParseArray", "Parser.ParseInfix", "Parser.ParseBlockComment", "Parser.ParseBacktickString", "Parser.ParserPeekNextToken"} {
+		// the routines confirmed by reading, plus every other parser routine that peeks the lexer directly:
+		// each of them must run the more-input protocol itself
+		names := []string{"Parser.ParseList", "Parser.ParseArray", "Parser.ParseInfix", "Parser.ParseBlockComment", "Parser.ParseBacktickString", "Parser.ParserPeekNextToken"}
+		have := map[string]bool{}
+		for _, n := range names {
+			have[n] = true
+		}
+		for _, g := range c.zygoFuncs() {
+			if g.Parent() == nil && isMethodOf(g, parserT) && len(callsOf(g, peek)) > 0 && !have[fnName(g)] {
+				names = append(names, fnName(g))
+				have[fnName(g)] = true
+			}
+		}
+		for _, name := range names {
 			f := c.mustFn("C13-YIELD", name)
 			if f == nil {
 				continue
